@@ -159,9 +159,21 @@ func (e *EventPublisher) RegisterHandler(topic Topic, handler SnapshotFunc, supp
 }
 
 func (e *EventPublisher) RefreshAllTopics() {
+	e.RefreshAllTopicsAfter(func() {})
+}
+
+// RefreshAllTopicsAfter is RefreshAllTopics for callers that replace the state
+// the snapshot handlers read from: replace is called while the publisher's lock
+// is held, so no subscription can be created (and no snapshot taken) between
+// the replacement of the state and the refresh. Snapshot handlers run under the
+// same lock, so whatever lock replace takes is acquired in the same order as
+// by Subscribe (publisher first); taking that lock around RefreshAllTopics
+// instead would deadlock against a concurrent Subscribe.
+func (e *EventPublisher) RefreshAllTopicsAfter(replace func()) {
 	topics := make(map[Topic]struct{})
 
 	e.lock.Lock()
+	replace()
 	// Everything queued by Publish so far was computed from the state that is being
 	// replaced.
 	atomic.AddUint64(&e.generation, 1)
